@@ -184,25 +184,6 @@ def run(ctx):
                     st3, res3 = ts.call_getter(st2, name)
                     if st3 != st2 or res3 != res:
                         flag("R4", f"J3 {name}", f"J3 violated: reading `{name}` twice changes the object / the result", ci.getters[name], ci.getters[name].node, st)
-                    # R2 / R3 facts
-                    top = [x for x in ts.return_nodes if x[0] == ci.getters[name].qualname]
-                    rn = top[-1][1] if top else None
-                    if name in ("nelec", "spinpol"):
-                        mo = ts.get(st, "mo")
-                        txt = src_of(rn.value) if rn is not None and rn.value is not None else "None"
-                        if mo != MO_ABSENT and txt != f"self.mo.{name}":
-                            flag("R2", f"getter {name}", f"`{name}` getter returns `{txt}` although orbitals are present (must be self.mo.{name})", ci.getters[name], rn or ci.getters[name].node, st)
-                        if mo == MO_ABSENT and txt != f"self._{name}":
-                            flag("R2", f"getter {name} no mo", f"`{name}` getter returns `{txt}` without orbitals (must be the stored self._{name})", ci.getters[name], rn or ci.getters[name].node, st)
-                    if name == "charge":
-                        ac = ts.get(st2, "_atcorenums")
-                        _, ne = ts.call_getter(st2, "nelec")
-                        txt = src_of(rn.value) if rn is not None and rn.value is not None else "None"
-                        derived = isinstance(rn.value, ast.BinOp) and isinstance(rn.value.op, ast.Sub) and "atcorenums" in src_of(rn.value.left) and ".sum()" in src_of(rn.value.left) and "nelec" in src_of(rn.value.right)
-                        if ac == SET and ne == SET and not derived:
-                            flag("R3", "charge derived", f"charge getter returns `{txt}` although core charges and electron count are both known", ci.getters["charge"], rn, st)
-                        if (ac != SET or ne != SET) and txt != "self._charge":
-                            flag("R3", "charge stored", f"charge getter returns `{txt}` although it cannot be derived (must be the stored self._charge)", ci.getters["charge"], rn, st)
                 elif kind == "set":
                     ts.inject, ts.vcount = None, 0
                     st2 = ts.call_setter(st, name, val)
@@ -322,12 +303,82 @@ def run(ctx):
 
     ctx.rule("R6", "the shape validator compares every non-None expected size, 0 included", "with zero atoms a non-empty per-atom array is accepted: the per-atom arrays disagree on the number of atoms")
     check_validate_shape(ctx, "R6")
+    check_getter_sources(ctx)
     ctx.rule("R7", "charge = sum of the core charges - number of electrons, as values (accessors evaluated on symbols)", "a sign slip in a setter: assigning the charge stores an electron count that gives back another charge")
     check_charge_arithmetic(ctx, "R7")
     check_natom_value(ctx, "R1")
     # all of the above rests on the attrs validators running on every construction and assignment: no function
     # reachable from the API may switch them off for the process (the interpreter-wide setter clause C16-R5)
     ctx.borrow("c16", {"R5": "R8"})
+
+
+def check_getter_sources(ctx):
+    """R2 / R3 by value: which source the getters `nelec`, `spinpol` and `charge` read, decided by evaluating them on
+    model objects whose stored values, orbitals and core charges all give *different* numbers.
+
+    With orbitals present `nelec` / `spinpol` are what the orbitals say (also when the orbitals carry no occupations:
+    then None), never the stored values; without orbitals they are the stored values.  `charge` is sum(core charges) -
+    nelec whenever both are known, otherwise the stored charge."""
+    from ..accessors import AccessorEval, Raised, Rec
+    from ..symarr import NotSymbolic
+
+    prog = ctx.prog
+    ci = prog.cls("iodata.iodata.IOData")
+    mo_cls = prog.cls("iodata.orbitals.MolecularOrbitals")
+
+    def orbitals(occs):
+        f = {name: None for name in mo_cls.fields}
+        f.update(kind="unrestricted", norba=2, norbb=1, occs=None if occs is None else np.array(occs), coeffs=None, energies=None, irreps=None)
+        return Rec(mo_cls, **f)
+
+    def obj(**kw):
+        f = {name: None for name in ci.fields}
+        f.update(kw)
+        return Rec(ci, **f)
+
+    def num(v):
+        if v is None:
+            return None
+        try:
+            return float(np.asarray(v, dtype=float))
+        except (TypeError, ValueError):
+            return v
+
+    rows = []
+    for label, mo in (("orbitals with occupations [1, 1 | 1]", orbitals([1.0, 1.0, 1.0])), ("orbitals without occupations", orbitals(None)), ("no orbitals", None)):
+        for name, stored in (("nelec", 11.0), ("spinpol", 7.0)):
+            rows.append((f"{name} with {label}", name, lambda mo=mo: obj(mo=mo, _nelec=11.0, _spinpol=7.0), (lambda ev, mo=mo, name=name: num(ev.get(mo, name))) if mo is not None else (lambda ev, stored=stored: stored), "R2"))
+    z = np.array([8.0, 1.0])
+    rows += [
+        ("charge with core charges [8, 1] and 6 stored electrons", "charge", lambda: obj(_atcorenums=z.copy(), _nelec=6.0), lambda ev: 3.0, "R3"),
+        ("charge with core charges [8, 1] and orbitals holding 3 electrons", "charge", lambda: obj(_atcorenums=z.copy(), mo=orbitals([1.0, 1.0, 1.0]), _nelec=6.0), lambda ev: 6.0, "R3"),
+        ("charge with atomic numbers [8, 1] only and 6 stored electrons", "charge", lambda: obj(atnums=np.array([8, 1]), _nelec=6.0), lambda ev: 3.0, "R3"),
+        ("charge without core charges and atomic numbers (stored charge 5.5, 6 electrons)", "charge", lambda: obj(_charge=5.5, _nelec=6.0), lambda ev: 5.5, "R3"),
+        ("charge with core charges but no electron count (stored charge 5.5)", "charge", lambda: obj(_atcorenums=z.copy(), _charge=5.5), lambda ev: 5.5, "R3"),
+    ]
+    done = {"R2": 0, "R3": 0}
+    for label, name, mk, want_f, rid in rows:
+        g = ci.getters.get(name)
+        if g is None:
+            raise AnalysisError(f"IOData.{name} getter not found")
+        try:
+            ev = AccessorEval(prog, ci, limit=4000)
+            got = num(ev.get(mk(), name))
+            want = want_f(AccessorEval(prog, mo_cls, limit=4000))
+        except Raised as exc:
+            ctx.violate(rid, f"IOData.{label}: the getter raises {exc.args[0]}", g, g.node, construct=f"getter {name}: raises")
+            continue
+        except NotSymbolic as exc:
+            raise AnalysisError(f"IOData.{name} getter is outside the evaluation whitelist: {exc}") from exc
+        same = (got is None and want is None) or (got is not None and want is not None and abs(got - want) < 1e-12)
+        if same:
+            done[rid] += 1
+        else:
+            src = "the orbitals" if "orbitals" in label and "no orbitals" not in label and name != "charge" else ("the stored value" if name != "charge" else "sum(core charges) - nelec when both are known, else the stored charge")
+            ctx.violate(rid, f"IOData.{label}: the getter gives {got!r}, expected {want!r} ({src})", g, g.node, construct=f"getter {name}: {label}"[:150])
+    for rid, k in done.items():
+        if k:
+            ctx.ok(rid, f"IOData getters evaluated on {k} model objects with pairwise different sources: each reads the documented source", f"{ci.module.relpath}:{ci.node.lineno}")
 
 
 def check_charge_arithmetic(ctx, rid):
